@@ -165,7 +165,16 @@ def populate_sample_cell(
         sindex=traces_sindex, sample_circle=sample_circle, geometries=traces
     )
 
-    if len(trace_candidates) == 0:
+    # No traces within the bounds of the sample circle, or, when branches and
+    # nodes are resolved for each cell, no traces within the sample circle
+    # itself (there is nothing to determine branches and nodes from).
+    if len(trace_candidates) == 0 or (
+        resolve_branches_and_nodes
+        and resolve_samples(
+            candidates=trace_candidates, sample_circle=sample_circle
+        ).shape[0]
+        == 0
+    ):
         return determine_topology_parameters(
             trace_length_array=np.array([]),
             node_counts=determine_node_type_counts(np.array([]), branches_defined=True),
